@@ -40,6 +40,9 @@ CHECKS = {
  "C03": dict(level="proof", ref="7/C03", technique="contract-based deductive verification: per (cell, module) contract of Allocation.initial_allocation / _detect_fixed_rectangles on an arbitrary cell (FLATMAP loop shape checked on the AST), squares by the sqrt axiom, callees replaced by their C18/C06 contracts; bounded end-to-end template through the real constructors",
    text="For an arbitrary refinable cell (ground or specialised region, all coordinates symbolic) and netlists of soft modules without rectangles (square of the module's area around its centre), soft/hard modules with 1-2 rectangles: the cell's occupancy map is exactly {m: covered fraction}, a module is listed iff it covers part of the cell or zero entries are requested; a fixed module fully owns exactly its own cell ({m: 1.0}, depth 0) and is not listed elsewhere; partially covered or missing fixed cells are rejected; create_squares. End-to-end through the real Die/Allocation constructors on a bounded template.",
    note=BASE + "; the outer loop is lifted by its FLATMAP shape; 'area allocated = area of the shape on the cells' follows from the per-cell ratios by linearity given the module's rectangles are pairwise disjoint (argument, proved only on the end-to-end template); netlists bounded (<= 2 modules, <= 2 rectangles)"),
+ "C07": dict(level="exploration", enum=True, ref="7/C07", technique="bounded exhaustive run-time contract checking of the real SAT layer (all assignments of all small constraints, pysat as oracle for 'extends to a model') + contract-based deductive step/base lemmas of the ROBDD construction on the real closures with symbolic coefficients",
+   text="Exactness is a statement about the model set of a CNF produced by memoised recursion over a process-wide store; it is decided by exhaustive enumeration up to the stated bound, not proved. Deductive part (all integer coefficients, all assignments): the if/else propagation closures of both constructions, the base case, maxsum and the isclause shortcut are exact for lists of <= 3 terms; the generic recursion constructrobdd and the one-directional Tseitin encoding _codifyrobdd are covered by the bounded leg only.",
+   note="pysat/Minisat22 trusted as SAT oracle; bounded: <= 3 literals (4 thorough), coefficients in [-3,3], at-most-one groups <= 9 (12), random systems; all encodings share one process (history dimension)"),
 }
 
 PENDING = {}
